@@ -13,6 +13,7 @@ def check(ctx):
     ctx.guard(r081_082, ctx)
     ctx.guard(r083, ctx)
     ctx.guard(_shared_c08, ctx)
+    ctx.guard(_mixture, ctx)
 
 def _no_lag(fq, depth):
     return not fq.startswith(M_LAG + ":")
@@ -338,6 +339,13 @@ def r083(ctx):
     ub = kw(prim, "A_ub")
     okub = A2.eq(ub, A2.at(prim, "np.concatenate((self.gammas.sub(self.constraints.bound(), axis=0), -np.ones((len(self.constraints.index), 1))), axis=1)", np_))
     ctx.ob("R08.3", rl.func, prim.node, okub, "the inequality rows are gamma - bound - slack <= 0", construct="LP inequality rows")
+
+
+def _mixture(ctx):
+    from . import c10
+    ctx.rule("R08.7", "the certified classifier Q is what predict evaluates: the weights_-weighted mixture of the stored predictors, "
+                      "aligned by predictor id (shared with C10 R10.1)")
+    ctx.aliased({"R10.1": "R08.7"}, c10.r101, ctx)
 
 
 def _shared_c08(ctx):
